@@ -108,6 +108,12 @@ def cases(tier, rng):
     for cnt, unit in [(4, 4), (3, 8), (7, 16), (0, 0), (4, 3), (4, 0), (0, 4), (5, 6), (2, 1), (9, 128), (4, 12), (3, F(1, 2)), (-2, 4)]:
         yield Case("bar.run", ["C", 4, 4, [["set_meter", cnt, unit], ["place", C_E, 4]]], "set_meter", kind=("meter", cnt, unit))
         yield Case("bar.run", ["C", cnt, unit, [["place", C_E, 4]]], "ctor_meter", kind=("ctor", cnt, unit))
+    # beat units that are large powers of two (exactly representable, but a logarithm is not), and their neighbours
+    for k in (10, 11, 20, 29, 31, 39, 47, 51, 55, 58, 59, 62, 64):
+        for unit in (2 ** k, 2 ** k + 1, 3 * 2 ** (k - 1)):
+            yield Case("bar.run", ["C", 4, 4, [["set_meter", 4, unit], ["place", C_E, 4]]], "set_meter/large-unit", kind=("meter", 4, unit))
+            yield Case("bar.run", ["C", 1, unit, [["value_left"], ["place", C_E, unit], ["remove_last"], ["value_left"]]],
+                       "ctor_meter/large-unit", kind=("ctor", 1, unit))
     # the beat unit as a Python float (8.0 == 8): accepted exactly like the integer
     for cnt, unit in [(4, 4), (6, 8), (3, 2), (5, 16), (2, 1), (4, 3), (4, 6), (7, 128)]:
         yield Case("bar.run", ["C", 4, 4, [["set_meter_f", cnt, unit], ["place", C_E, 4]]], "set_meter/float-unit", kind=("meter", cnt, unit))
@@ -221,7 +227,13 @@ def oracle(c, obs):
                 return None if isinstance(obs, Err) else "invalid meter accepted by the constructor"
             if isinstance(obs, Err):
                 return "valid meter rejected by the constructor"
-            return None if obs[-1][1] == (F(cnt) / F(unit) if unit else 0) else "bar length is not count/unit"
+            if obs[-1][1] != (F(cnt) / F(unit) if unit else 0):
+                return "bar length is not count/unit"
+            for st in obs:
+                stt = st[1] if (isinstance(st, list) and len(st) == 2 and isinstance(st[1], list)) else st
+                if isinstance(stt, list) and len(stt) >= 5 and stt[4] == [] and stt[2] is True:
+                    return "an empty bar reports full"
+            return None
         st = obs[0]
         if not ok:
             if not isinstance(st, Err):
